@@ -85,7 +85,7 @@ def rare(time, xlab, dx, p_cj, d_cj, gam, u_piston):
     u_cj = d_cj / gamp1
 
     gamm1 = gam - 1.0
-    aa = 1.0 / (2.0 * c_cj * time)
+    aa = gamm1 / (gamp1 * c_cj * time)
     bb = (2.0 - gamm1 * u_cj / c_cj) / gamp1
     b = 2.0 * gam / gamm1
     d = 2.0 / gamm1
